@@ -1,4 +1,7 @@
 import GoframeModel.Core.Heap
+import GoframeModel.Core.HeapStep
+import GoframeModel.Props.C01
+import GoframeModel.Lemmas.HeapStep
 import GoframeModel.Step
 import GoframeModel.Lemmas.Heap
 /-
@@ -10,7 +13,7 @@ import GoframeModel.Lemmas.Heap
   driver executes. The pinned `Head` (sub-slices) is refuted on a witness.
 -/
 namespace Goframe.C02
-open Goframe Heap HeapLemmas
+open Goframe Heap HeapLemmas HeapStepLemmas
 
 /-- a freshly allocated result: separation is preserved, every existing frame keeps its value, and the
 new frame denotes exactly the allocated value -/
@@ -92,5 +95,91 @@ in-place operation changes only its target -/
 theorem step_changes_only_target (ω : Oracle) (p p' : Pool) (op : Op) (h : step ω p op = .ok p') :
     ∀ i, i < p.length → (op.inPlace = false ∨ i ≠ op.target) → p'[i]? = p[i]? := by
   exact step_only_target ω p p' op h
+
+
+/-! ### every operation, every history: the heap semantics equals the value semantics -/
+
+/-- side conditions along a history (the property's own: columns handed to AddColumn have the receiver's length) -/
+def OkAlong (ω : Oracle) : Pool → List Op → Prop
+  | _, [] => True
+  | p, op :: ops => C01.OpOk p op ∧ OkAlong ω (match step ω p op with | .ok p' => p' | _ => p) ops
+
+/-- ONE STEP. On a separated heap whose frames are good, the heap-level effect of any public operation
+(derivations allocate; in-place operations append / shift / overwrite / assign fresh slices / edit the map)
+keeps the heap separated and changes the pool of frame VALUES exactly as the value model `step` says. In
+particular no frame other than the target of an in-place operation changes, and a derived frame shares
+nothing with its source. -/
+theorem hstep_refines (g : Nat → Nat) (ω : Oracle) (h h' : H) (op : Op) (hs : Sep h) (hg : C01.Good (pool h))
+    (hok : C01.OpOk (pool h) op) (hst : hstep g ω h op = .ok h') :
+    Sep h' ∧ step ω (pool h) op = .ok (pool h') := by
+  have _ := hok  -- the side condition only serves to carry goodness along a history
+  cases he : opEffect ω (pool h) op with
+  | err e => unfold hstep at hst; rw [he] at hst; cases hst
+  | panic e => unfold hstep at hst; rw [he] at hst; cases hst
+  | ok out =>
+    cases out with
+    | derived f =>
+      unfold hstep at hst
+      rw [he] at hst
+      simp only [Outcome.ok.injEq] at hst
+      subst hst
+      refine ⟨(alloc_sep h f hs).1, ?_⟩
+      unfold step
+      rw [he, pool_alloc h f hs]
+      rfl
+    | mutated f' =>
+      obtain ⟨ht, hm⟩ := hstep_mutated g ω h h' op f' hs (fun f hf => (hg f hf).2) he hst
+      refine ⟨hm.1, ?_⟩
+      unfold step
+      rw [he, pool_of_mut ht hm]
+      rfl
+
+/-- an operation fails on the heap exactly when it fails on values -/
+theorem hstep_fails_iff (g : Nat → Nat) (ω : Oracle) (h : H) (op : Op) :
+    (hstep g ω h op).isOk = (step ω (pool h) op).isOk := by
+  unfold hstep step
+  cases he : opEffect ω (pool h) op with
+  | err e => rfl
+  | panic e => rfl
+  | ok out =>
+    cases out with
+    | derived f => rfl
+    | mutated f' =>
+      cases op <;> try rfl
+      case setCell t k i v =>
+        simp only [Outcome.bind]
+        cases List.find? (fun kc => kc.1 == k) (h.frames.getD (Op.setCell t k i v).target []) <;> rfl
+
+/-- EVERY HISTORY: the frames a program observes on the real (aliasing-capable) heap are exactly those of the
+value model, for every growth function of `append` -/
+theorem hrun_refines (g : Nat → Nat) (ω : Oracle) (ops : List Op) (h : H) (hs : Sep h) (hg : C01.Good (pool h))
+    (hok : OkAlong ω (pool h) ops) :
+    Sep (hrun g ω h ops) ∧ pool (hrun g ω h ops) = run ω (pool h) ops := by
+  induction ops generalizing h with
+  | nil => exact ⟨hs, rfl⟩
+  | cons op ops ih =>
+    obtain ⟨hop, hrest⟩ := hok
+    simp only [hrun, run]
+    cases hh : hstep g ω h op with
+    | ok h' =>
+      obtain ⟨hs', hst'⟩ := hstep_refines g ω h h' op hs hg hop hh
+      rw [hst'] at hrest ⊢
+      simp only at hrest ⊢
+      exact ih h' hs' (C01.step_good ω _ _ op hg hop hst') hrest
+    | err e =>
+      have hiff := hstep_fails_iff g ω h op
+      rw [hh] at hiff
+      cases hv : step ω (pool h) op with
+      | ok p' => rw [hv] at hiff; cases hiff
+      | err e' => rw [hv] at hrest; simp only at hrest ⊢; exact ih h hs hg hrest
+      | panic e' => rw [hv] at hrest; simp only at hrest ⊢; exact ih h hs hg hrest
+    | panic e =>
+      have hiff := hstep_fails_iff g ω h op
+      rw [hh] at hiff
+      cases hv : step ω (pool h) op with
+      | ok p' => rw [hv] at hiff; cases hiff
+      | err e' => rw [hv] at hrest; simp only at hrest ⊢; exact ih h hs hg hrest
+      | panic e' => rw [hv] at hrest; simp only at hrest ⊢; exact ih h hs hg hrest
+
 
 end Goframe.C02
